@@ -875,14 +875,25 @@ func flowsOnlyToErrors(v ssa.Value, seen map[ssa.Value]bool) bool {
 			if !flowsOnlyToErrors(x, seen) {
 				return false
 			}
+		case *ssa.Panic:
+		case *ssa.Phi:
+			if !flowsOnlyToErrors(x, seen) {
+				return false
+			}
 		case *ssa.Call:
+			if bi, ok := x.Call.Value.(*ssa.Builtin); ok && bi.Name() == "append" {
+				if !flowsOnlyToErrors(x, seen) {
+					return false
+				}
+				continue
+			}
 			callee := x.Call.StaticCallee()
 			if callee == nil {
 				return false
 			}
 			switch callee.String() {
 			case "fmt.Errorf":
-			case "fmt.Sprintf":
+			case "fmt.Sprintf", "strings.Join":
 				if !flowsOnlyToErrors(x, seen) {
 					return false
 				}
